@@ -1779,8 +1779,13 @@ def run_C17(ctx):
             two = (len(jobs), len(jobs) + 1)
             jobs.append({"argv": ["validate", "-r", "{DIR}/r.guard", "-d", "{DIR}/d.json", "-d", "{DIR}/d2.json"] + iargs + sf, "files": files})
             jobs.append({"argv": ["validate", "-r", "{DIR}/r.guard", "-d", "{DIR}/m.json", "-d", "{DIR}/m2.json"] + sf, "files": files})
+        # the data document piped on STDIN (no --data): it is merged with the parameter files like a data file is
+        sin = None
+        if params:
+            sin = len(jobs)
+            jobs.append({"argv": ["validate", "-r", "{DIR}/r.guard"] + iargs + flags, "files": files, "stdin": json.dumps(data)})
         meta.append({"base": base, "perms": perm_idx, "overlap": bool(overlap), "structured": structured, "rules": rules,
-                     "params": params, "data": data, "merged": merged, "two": two})
+                     "params": params, "data": data, "merged": merged, "two": two, "stdin": sin})
     # parameter files are documents like the data files: scalars that only some YAML readers type (True, 0x1F90, ~, yes,
     # 1_000, 1e3) must mean the same through `-i` as in the pre-merged document written with the SAME spelling
     odd = []
@@ -1855,6 +1860,16 @@ def run_C17(ctx):
         b = verdict(outs[m["base"] + 1], m["structured"])
         res.stats["c17:" + ("overlap" if m["overlap"] else "disjoint") + ":" + str(a[0])] += 1
         info = {"rules": m["rules"], "params": m["params"], "data": m["data"], "structured": m["structured"]}
+        if m.get("stdin") is not None:
+            c = verdict(outs[m["stdin"]], m["structured"])
+            res.stats["c17:stdin-data:%s" % str(c[0])] += 1
+            if m["overlap"]:
+                if outs[m["stdin"]]["code"] in (0, 19):
+                    res.judge_failures.append(dict(info, what="the STDIN document and a parameter file define the same top-level key but the run did not fail (exit %s)" % outs[m["stdin"]]["code"],
+                                                   argv=jobs[m["stdin"]]["argv"], **{"class": "c17-stdin-silent-override"}))
+            elif c != b:
+                res.judge_failures.append(dict(info, what="the document piped on STDIN with parameter files differs from the pre-merged document: %s vs %s" % (c[:3], b[:3]),
+                                               argv=jobs[m["stdin"]]["argv"], **{"class": "c17-stdin-merge"}))
         if m["overlap"]:
             o = outs[m["base"]]
             if o["code"] in (0, 19):
@@ -1965,6 +1980,51 @@ def run_C16(ctx):
                     jown.append((si, tag + "-" + fmt))
                     jobs.append({"argv": ["test", "-d", "{DIR}"] + oargs, "files": fd})
                     jown.append((si, tag + "-dir-" + fmt))
+        # the scenario's rules file between two other rules files of the directory whose expectations are all met: unmet
+        # expectations anywhere make the run fail, in every format
+        okr = "rule ok {\nthis exists\n}\n"
+        okt = json.dumps([{"name": "fine", "input": {"a": 1}, "expectations": {"rules": {"ok": "PASS"}}}])
+        fm = {"x.guard": s["rules"], "tests/x_tests.yaml": tests, "0first.guard": okr, "tests/0first_tests.json": okt,
+              "zlast.guard": okr, "tests/zlast_tests.json": okt}
+        for fmt in ("plain", "json", "yaml", "junit"):
+            jobs.append({"argv": ["test", "-d", "{DIR}"] + ([] if fmt == "plain" else ["-o", fmt]), "files": fm})
+            jown.append((si, "multi-" + fmt))
+    # number spellings in JSON / YAML test files: `test` must type the input like `validate` types the same document
+    nj, nown = [], []
+    NUMS = ["-0", "0", "-0.0", "1e2", "1E+2", "100", "0.10", "-1", "9223372036854775807", "1.0", "5e-1"]
+    nrules = "rule is_i {\nx is_int\n}\nrule is_f {\nx is_float\n}\nrule eq0 {\nx == 0\n}\nrule eq0f {\nx == 0.0\n}\nrule le100 {\nx <= 100\n}\n"
+    for ni, sp_ in enumerate(NUMS):
+        nj.append({"argv": ["validate", "-r", "{DIR}/n.guard", "-d", "{DIR}/d.json", "--structured", "-o", "json", "-S", "none"],
+                   "files": {"n.guard": nrules, "d.json": '{"x": %s}' % sp_}})
+        nown.append((ni, "validate"))
+    nouts = dict(zip(nown, vlib.run_cli_many(nj)))
+    nj2, nown2 = [], []
+    for ni, sp_ in enumerate(NUMS):
+        vo = nouts[(ni, "validate")]
+        try:
+            Pn = partition_of_report(json.loads(vo["stdout"])[0])
+        except Exception:
+            res.stats["c16-number-validate-unreadable"] += 1
+            continue
+        exp_ = {nm: st for st in ("PASS", "FAIL", "SKIP") for nm in Pn[st]}
+        flip = dict(exp_, is_i=("FAIL" if exp_.get("is_i") == "PASS" else "PASS"))
+        for tag, ex_, wantc in (("met", exp_, 0), ("flipped", flip, 7)):
+            erules = ", ".join('"%s": "%s"' % kv for kv in sorted(ex_.items()))
+            tjson = '[{"name": "n", "input": {"x": %s}, "expectations": {"rules": {%s}}}]' % (sp_, erules)
+            tyaml = "- name: n\n  input:\n    x: %s\n  expectations:\n    rules: {%s}\n" % (sp_, erules)
+            for tf_, ttxt in (("n_tests.json", tjson), ("n_tests.yaml", tyaml)):
+                for fmt in ("plain", "json"):
+                    nj2.append({"argv": ["test", "-r", "{DIR}/n.guard", "-t", "{DIR}/" + tf_] + ([] if fmt == "plain" else ["-o", fmt]),
+                                "files": {"n.guard": nrules, tf_: ttxt}})
+                    nown2.append((sp_, tag, tf_, fmt, wantc, ttxt))
+    for (sp_, tag, tf_, fmt, wantc, ttxt), o_ in zip(nown2, vlib.run_cli_many(nj2)):
+        res.evaluations += 1
+        res.stats["c16-number-spelling:%s" % tf_.split(".")[-1]] += 1
+        res.nontrivial.add(("num", sp_, tag, tf_, fmt))
+        if o_["code"] != wantc:
+            res.judge_failures.append({"what": "input number `%s` in a %s test file (%s): expectations taken from `validate` on {\"x\": %s} are %s, yet test exits %s (expected %s)" % (
+                                           sp_, tf_.split(".")[-1].upper(), fmt, sp_, tag, o_["code"], wantc),
+                                       "class": "c16-number-typing", "rules": nrules, "tests": ttxt, "stdout": o_["stdout"][:400]})
     outs = dict(zip(jown, vlib.run_cli_many(jobs)))
     # model classification from the validate statuses
     mreqs, mown = [], []
@@ -2046,6 +2106,13 @@ def run_C16(ctx):
                         res.judge_failures.append(dict(info, what="the same test cases split over two test files (%s) exit %s, in one file %s" % (
                             key, outs[(si, key)]["code"], oj["code"]), **{"class": "c16-split"}))
                         break
+        if oj["code"] in (0, 7):
+            for fmt in ("plain", "json", "yaml", "junit"):
+                res.stats["c16-multi-rules-dir-compared"] += 1
+                if outs[(si, "multi-" + fmt)]["code"] != oj["code"]:
+                    res.judge_failures.append(dict(info, what="--dir with two more rules files whose expectations are met (%s): exit %s, the rules file alone exits %s" % (
+                        fmt, outs[(si, "multi-" + fmt)]["code"], oj["code"]), **{"class": "c16-multi-dir"}))
+                    break
         # formats agree
         oy, op_, ox = outs[(si, "yaml")], outs[(si, "plain")], outs[(si, "junit")]
         try:
